@@ -57,7 +57,7 @@ var c17Valid = map[string]string{
 }
 
 // stdout kinds
-var c17Outs = []string{"valid", "no-name", "no-description", "no-version", "no-url", "no-capabilities", "no-contract", "wrong-name", "bad-contract", "nonjson", "empty", "pad-before", "pad-after", "truncated", "null"}
+var c17Outs = []string{"valid", "no-name", "no-description", "no-version", "no-url", "no-capabilities", "no-contract", "wrong-name", "bad-contract", "nonjson", "empty", "pad-before", "pad-after", "truncated", "null", "trailing-object", "trailing-text", "trailing-binary", "leading-text", "two-replies"}
 
 // stderr kinds
 var c17Errs = []string{"empty", "structured", "structured-nomsg", "empty-object", "nonjson", "huge"}
@@ -194,6 +194,16 @@ func c17Stdout(cmd, kind string, size int64) (data string, fillBefore, fillAfter
 		return valid[:len(valid)/2], 0, 0, false
 	case "null":
 		return "null", 0, 0, cmd != c17Cmds[0]
+	case "trailing-object": // a valid reply followed by something else is not a JSON reply
+		return valid + `{"name":"evil"}`, 0, 0, false
+	case "trailing-text":
+		return valid + "\nWARN: something was logged to stdout\n", 0, 0, false
+	case "trailing-binary":
+		return valid + "\x00\xff\x00", 0, 0, false
+	case "leading-text":
+		return "starting plugin...\n" + valid, 0, 0, false
+	case "two-replies":
+		return valid + "\n" + valid, 0, 0, false
 	}
 	return valid, 0, 0, true
 }
